@@ -30,7 +30,7 @@ CTX = {
     'ref': lambda t: ('ref', t),
 }
 QUICK_CTX = ['opt', 'vec', 'hset', 'hmap-v', 'hmap-k', 'tup2-0', 'tup2-1', 'result', 'result1', 'ref', 'bmap-v', 'bset', 'tup3-1']
-LEAF_LENS = {'quick': (3, 6), 'thorough': (2, 3, 4, 5, 6)}
+LEAF_LENS = {'quick': (3, 4, 6), 'thorough': (2, 3, 4, 5, 6)}
 
 
 def skeleton(ctx_names, leaf):
